@@ -14,7 +14,7 @@ LEVEL = 'proof'
 HERE = os.path.dirname(os.path.abspath(__file__))
 SPEC = load_spec_module(os.path.join(HERE, '..', 'contracts', 'C02.py'), 'contracts.C02')
 BM = 'jesse.modes.backtest_mode'
-FUNCTIONS = ['jesse.services.candle.candle_includes_price', f'{BM}._get_executing_orders', f'{BM}._simulate_price_change_effect',
+FUNCTIONS = ['jesse.store.state_orders.OrdersState.execute_pending_market_orders', 'jesse.services.candle.candle_includes_price', f'{BM}._get_executing_orders', f'{BM}._simulate_price_change_effect',
              f'{BM}._simulate_price_change_effect_multiple_candles', f'{BM}._sort_execution_orders', f'{BM}._step_simulator',
              f'{BM}._skip_simulator', f'{BM}._execute_market_orders', 'jesse.services.candle.split_candle',
              'jesse.models.Order.Order.is_active']
@@ -282,6 +282,35 @@ def t_flush(simulator):
     return t
 
 
+def t_flush_drains(h):
+    """OrdersState.execute_pending_market_orders: a MARKET order queued by a hook while the flush runs (reaction to a
+    fill of the flush) is executed by the same flush - not one candle later - and the queue is empty afterwards"""
+    cls = h.repo.find('jesse.store.state_orders.OrdersState')
+    trace = []
+    reg = Obj(cls, {'to_execute': [], 'storage': {}, 'active_storage': {}})
+    ms = [Obj(None, {'id': f'm{j}'}, name=f'm{j}') for j in range(3)]
+
+    def mk(j):
+        def ex(i, a, k):
+            trace.append(ms[j])
+            if j + 1 < len(ms) and j < 2:
+                # hook reaction (e.g. on_open_position -> liquidate): Sandbox.market_order appends to the live queue
+                reg.f['to_execute'].append(ms[j + 1])
+        return ex
+    for j, o in enumerate(ms):
+        o.f['execute'] = Builtin('execute', mk(j))
+    reg.f['to_execute'].append(ms[0])
+    h.cover('flush.drains.pre')
+    out = h.method_outcome(reg, 'execute_pending_market_orders')
+    h.prove(out.ok, 'flush.drains.no-exception', {'raised': out.exc})
+    h.prove(len(trace) == 3 and all(trace[j] is ms[j] for j in range(len(trace))),
+            'flush.market-order-queued-during-the-flush-is-executed-by-the-same-flush', {'executed': [o.name for o in trace]})
+    h.prove(reg.f['to_execute'] == [], 'flush.queue-empty-afterwards')
+    n = len(trace)
+    h.method(reg, 'execute_pending_market_orders')
+    h.prove(len(trace) == n, 'flush.nothing-executed-twice')
+
+
 def tasks(tier):
     x = dict(spec_mod=SPEC)
     ov = stubs.backtest_mode()
@@ -305,6 +334,7 @@ def tasks(tier):
             ts.append(Task(f'match.chunk.n2.{"f" if r0 else "r"}{"f" if r1 else "r"}', t_match_chunk(2, mins, hook_cancels=False, reds=(r0, r1)),
                            extra=dict(x, bounded=f'chunk of {mins} minutes, 2 resting orders, fills without hook effects'),
                            overrides=dict(ov), max_paths=200000))
+    ts.append(Task('flush.drains', t_flush_drains, extra=dict(x), overrides=dict(ov)))
     for s_ in ('_step_simulator', '_skip_simulator'):
         ts.append(Task(f'flush.{s_}', t_flush(s_), extra=dict(x), overrides=dict(ov), invariants={}))
     return ts
